@@ -133,6 +133,45 @@ Proof.
     destruct (lookup_install s n v b now) as [s' fx]. cbn [fst]. tauto.
 Qed.
 
+(* ---- a watcher registered through the lookup is woken like any other.  lookupWatcher's lookup branch: the
+   locked part of the flight (lookup_finish: installs the answer, or keeps the entry somebody else installed
+   meanwhile), then - under the lock again - the registration (add_watcher).  Whichever entry ended up
+   installed, the next poll that installs a version of the name (apply_updates) fills the new watcher's slot
+   and the store serves that version. *)
+Lemma ws_secret_locked (s : store V) n : ws (fst (secret_locked s n)) = ws s /\ m (fst (secret_locked s n)) = m s.
+Proof. unfold secret_locked. destruct (known s n); [destruct (has_handle s n)|]; cbn [fst]; auto. Qed.
+
+Lemma lookup_finish_entry (s : store V) n v0 b0 now : Inv s ->
+  ws (fst (lookup_finish s n v0 b0 now)) = ws s /\ exists e, find n (m (fst (lookup_finish s n v0 b0 now))) = Some (Some e).
+Proof.
+  intros I. unfold lookup_finish. destruct (entry s n) as [e|] eqn:E.
+  - cbn [fst]. destruct (ws_secret_locked s n) as (W & M). rewrite W, M. split; [reflexivity|].
+    unfold entry in E. destruct (find n (m s)) as [[e'|]|]; try discriminate. inversion E; subst. eauto.
+  - unfold lookup_install. cbn [fst].
+    destruct (ws_secret_locked (with_m s (upd n (Some (CE v0 b0 now false)) (m s))) n) as (W & M).
+    rewrite W, M. cbn [ws m with_m]. split; [reflexivity|]. rewrite find_upd_eq. eauto.
+Qed.
+
+Lemma watcher_after_lookup_is_woken (s : store V) n v0 b0 now v b : Inv s ->
+  let s1 := fst (lookup_finish s n v0 b0 now) in
+  let s2 := fst (add_watcher s1 n) in
+  let w := snd (add_watcher s1 n) in
+  let s3 := fst (apply_updates s2 [(n, Install v b)]) in
+  w = length (ws s) /\ nth_error (ws s2) w = Some (W n false) /\
+  nth_error (ws s3) w = Some (W n true) /\ exists t d, entry s3 n = Some (CE v b t d).
+Proof.
+  intros I s1 s2 w s3. destruct (lookup_finish_entry n v0 b0 now I) as (Ws & e & Fe). fold s1 in Ws, Fe.
+  assert (Ew : w = length (ws s)) by (unfold w, add_watcher; cbn [snd]; rewrite Ws; reflexivity).
+  assert (W2 : ws s2 = ws s ++ [W n false]) by (unfold s2, add_watcher; cbn [fst with_ws ws]; rewrite Ws; reflexivity).
+  assert (M2 : m s2 = m s1) by reflexivity.
+  split; [exact Ew|]. split.
+  { rewrite W2, Ew, nth_error_app2, Nat.sub_diag by lia. reflexivity. }
+  unfold s3, apply_updates. cbn [fst fold_left apply1]. rewrite M2, Fe. split.
+  - cbn [notify with_ws with_m ws]. rewrite nth_error_map, W2, Ew, nth_error_app2, Nat.sub_diag by lia.
+    cbn [nth_error option_map wname]. rewrite (proj2 (neqb_true n n) eq_refl). reflexivity.
+  - exists (last e), (decl e). unfold entry. cbn [notify with_ws with_m m]. rewrite find_upd_eq. reflexivity.
+Qed.
+
 End PolicyProofs.
 
 (* ------------------------------------------------------------------ time *)
